@@ -1,6 +1,9 @@
 package schema
 
-import "fmt"
+import (
+	"fmt"
+	"regexp"
+)
 
 // C17 — a rejection names the offending element: exactly one fault is planted into an otherwise valid input and
 // the error must be a constraint error whose path leads from the root to the faulty element.
@@ -273,3 +276,242 @@ func VerifC17_PresenceRules() {
 }
 
 func init() { verifRegister("VerifC17_PresenceRules", VerifC17_PresenceRules) }
+
+// Deep nesting: map -> list -> reference -> object inside a scope, next to an any-typed property, a string with
+// length bounds and a pattern, a bounded float, a bool, a bounded list and a one-of; one fault at a time, through
+// Unserialize (raw decoder shapes) and through Validate (the values Unserialize produces). Segments that only
+// name the chosen one-of member ("{oneof[k]}") are not part of the path the property talks about and are dropped
+// before comparing.
+func init() { verifRegister("VerifC17_Deep", VerifC17_Deep) }
+
+func verifPathIsModuloOneOf(err error, want ...string) bool {
+	if !verifIsConstraintError(err) {
+		return false
+	}
+	var path []string
+	for _, s := range verifErrPath(err) {
+		if len(s) > 7 && s[:7] == "{oneof[" {
+			continue
+		}
+		path = append(path, s)
+	}
+	return verifSamePath(path, want...)
+}
+
+var verifOne, verifTwo, verifFour int64 = 1, 2, 4
+
+func VerifC17_Deep() {
+	min := nondetInt64("min")
+	fmin := nondetFloat64("fmin")
+	verifAssume(fmin == fmin)
+	leaf := NewObjectSchema("Leaf", map[string]*PropertySchema{
+		"n": NewPropertySchema(NewIntSchema(&min, nil, nil), nil, true, nil, nil, nil, nil, nil),
+		"e": NewPropertySchema(NewStringEnumSchema(map[string]*DisplayValue{"x": nil, "y": nil}), nil, false, nil, nil, nil, nil, nil),
+	})
+	member := NewObjectSchema("M", map[string]*PropertySchema{
+		"v": NewPropertySchema(NewIntSchema(&min, nil, nil), nil, true, nil, nil, nil, nil, nil),
+		"w": NewPropertySchema(NewListSchema(NewIntSchema(&min, nil, nil), nil, nil), nil, false, nil, nil, nil, nil, nil),
+	})
+	root := NewObjectSchema("Root", map[string]*PropertySchema{
+		"items": NewPropertySchema(NewMapSchema(NewStringSchema(&verifOne, nil, nil), NewListSchema(NewRefSchema("Leaf", nil), nil, nil), nil, nil), nil, false, nil, nil, nil, nil, nil),
+		"any":   NewPropertySchema(NewAnySchema(), nil, false, nil, nil, nil, nil, nil),
+		"name":  NewPropertySchema(NewStringSchema(&verifTwo, &verifFour, regexp.MustCompile("^[a-z]+$")), nil, false, nil, nil, nil, nil, nil),
+		"ratio": NewPropertySchema(NewFloatSchema(&fmin, nil, nil), nil, false, nil, nil, nil, nil, nil),
+		"flag":  NewPropertySchema(NewBoolSchema(), nil, false, nil, nil, nil, nil, nil),
+		"tags":  NewPropertySchema(NewListSchema(NewStringSchema(nil, nil, nil), &verifOne, &verifTwo), nil, false, nil, nil, nil, nil, nil),
+		"one":   NewPropertySchema(NewOneOfStringSchema[any](map[string]Object{"k": member}, "d", false), nil, false, nil, nil, nil, nil, nil),
+	})
+	s := NewScopeSchema(root, leaf)
+	n0, n1, v, w0 := nondetInt64("n0"), nondetInt64("n1"), nondetInt64("v"), nondetInt64("w0")
+	verifAssume(vAnd(vAnd(n0 >= min, n1 >= min), vAnd(v >= min, w0 >= min)))
+	ratio := nondetFloat64("ratio")
+	verifAssume(ratio >= fmin)
+	bad := nondetInt64("bad")
+	verifAssume(bad < min)
+	fbad := nondetFloat64("fbad")
+	verifAssume(vOr(fbad < fmin, fbad != fbad))
+	fault := nondetChoice("fault", 24)
+	validate := nondetBool("validate")
+	var want []string
+	var err error
+	if !validate {
+		l0 := map[string]any{"n": n0, "e": "x"}
+		l1 := map[string]any{"n": n1}
+		leaves := []any{l0, l1}
+		items := map[string]any{"k": leaves}
+		anyv := []any{int64(1), map[string]any{"a": int64(2)}}
+		tags := []any{"t"}
+		one := map[string]any{"d": "k", "v": v, "w": []any{w0}}
+		raw := map[string]any{"items": items, "any": anyv, "name": "abc", "ratio": ratio, "flag": true, "tags": tags, "one": one}
+		switch fault {
+		case 1:
+			l1["n"] = bad
+			want = []string{"items", "[k]", "[1]", "n"}
+		case 2:
+			l0["e"] = "z"
+			want = []string{"items", "[k]", "[0]", "e"}
+		case 3: // a key the key schema rejects
+			delete(items, "k")
+			items[""] = leaves
+			want = []string{"items", "{}"}
+		case 4:
+			raw["name"] = "a"
+			want = []string{"name"}
+		case 5:
+			raw["name"] = "abcde"
+			want = []string{"name"}
+		case 6:
+			raw["name"] = "aB"
+			want = []string{"name"}
+		case 7:
+			raw["ratio"] = fbad
+			want = []string{"ratio"}
+		case 8:
+			raw["flag"] = []any{}
+			want = []string{"flag"}
+		case 9:
+			raw["tags"] = []any{}
+			want = []string{"tags"}
+		case 10:
+			raw["tags"] = []any{"a", "b", "c"}
+			want = []string{"tags"}
+		case 11:
+			raw["tags"] = []any{"a", []any{}}
+			want = []string{"tags", "[1]"}
+		case 12: // a type the any schema does not support, inside a list
+			raw["any"] = []any{int64(1), verifStructOther{X: 1}}
+			want = []string{"any", "[1]"}
+		case 13: // ... and inside a map inside the list
+			raw["any"] = []any{map[string]any{"a": verifStructOther{X: 1}}}
+			want = []string{"any", "[0]", "[a]"}
+		case 14: // a lone value where a two-property object is expected
+			leaves[0] = "str"
+			want = []string{"items", "[k]", "[0]"}
+		case 15:
+			delete(l1, "n")
+			want = []string{"items", "[k]", "[1]", "n"}
+		case 16:
+			one["v"] = bad
+			want = []string{"one", "v"}
+		case 17:
+			one["w"] = []any{w0, bad}
+			want = []string{"one", "w", "[1]"}
+		case 18:
+			delete(one, "v")
+			want = []string{"one", "v"}
+		case 19:
+			raw["items"] = "str"
+			want = []string{"items"}
+		case 20:
+			items["k"] = "str"
+			want = []string{"items", "[k]"}
+		case 21:
+			one["d"] = "nope"
+			want = []string{"one"}
+		case 22:
+			delete(one, "d")
+			want = []string{"one"}
+		case 23:
+			raw["ratio"] = "notanumber"
+			want = []string{"ratio"}
+		}
+		_, err = s.Unserialize(raw)
+	} else {
+		// the shapes Unserialize returns for this scope (checked by the valid case below and by the native replay)
+		l0 := map[string]any{"n": n0, "e": "x"}
+		l1 := map[string]any{"n": n1}
+		leaves := []map[string]any{l0, l1}
+		items := map[string][]map[string]any{"k": leaves}
+		anyv := []any{int64(1), map[any]any{"a": int64(2)}}
+		one := map[string]any{"d": "k", "v": v, "w": []int64{w0}}
+		val := map[string]any{"items": items, "any": anyv, "name": "abc", "ratio": ratio, "flag": true, "tags": []string{"t"}, "one": one}
+		switch fault {
+		case 1:
+			l1["n"] = bad
+			want = []string{"items", "[k]", "[1]", "n"}
+		case 2:
+			l0["e"] = "z"
+			want = []string{"items", "[k]", "[0]", "e"}
+		case 3:
+			delete(items, "k")
+			items[""] = leaves
+			want = []string{"items", "{}"}
+		case 4:
+			val["name"] = "a"
+			want = []string{"name"}
+		case 5:
+			val["name"] = "abcde"
+			want = []string{"name"}
+		case 6:
+			val["name"] = "aB"
+			want = []string{"name"}
+		case 7:
+			val["ratio"] = fbad
+			want = []string{"ratio"}
+		case 8:
+			val["flag"] = []any{}
+			want = []string{"flag"}
+		case 9:
+			val["tags"] = []string{}
+			want = []string{"tags"}
+		case 10:
+			val["tags"] = []string{"a", "b", "c"}
+			want = []string{"tags"}
+		case 11:
+			val["one"] = "str"
+			want = []string{"one"}
+		case 12:
+			val["any"] = []any{int64(1), verifStructOther{X: 1}}
+			want = []string{"any", "[1]"}
+		case 13:
+			val["any"] = []any{map[any]any{"a": verifStructOther{X: 1}}}
+			want = []string{"any", "[0]", "[a]"}
+		case 14:
+			l1["n"] = "str"
+			want = []string{"items", "[k]", "[1]", "n"}
+		case 15:
+			delete(l1, "n")
+			want = []string{"items", "[k]", "[1]", "n"}
+		case 16:
+			one["v"] = bad
+			want = []string{"one", "v"}
+		case 17:
+			one["w"] = []int64{w0, bad}
+			want = []string{"one", "w", "[1]"}
+		case 18:
+			delete(one, "v")
+			want = []string{"one", "v"}
+		case 19:
+			val["items"] = "str"
+			want = []string{"items"}
+		case 20:
+			val["name"] = int64(5)
+			want = []string{"name"}
+		case 21:
+			one["d"] = "nope"
+			want = []string{"one"}
+		case 22:
+			delete(one, "d")
+			want = []string{"one"}
+		case 23:
+			val["ratio"] = "notanumber"
+			want = []string{"ratio"}
+		}
+		err = s.Validate(val)
+	}
+	if fault == 0 {
+		verifAssert("C17/deep/valid-value-accepted", err == nil)
+	} else {
+		op := "unserialize"
+		if validate {
+			op = "validate"
+		}
+		verifAssert("C17/deep/fault-rejected/"+op+fmt.Sprintf("/%d", fault), err != nil)
+		if err != nil {
+			verifAssert("C17/deep/path-leads-to-element/"+op+fmt.Sprintf("/%d", fault), verifPathIsModuloOneOf(err, want...))
+		}
+	}
+	verifObserve("rejected", err != nil)
+	verifObserve("validate", validate)
+	verifReach("C17/deep/end")
+}
